@@ -39,8 +39,13 @@ object at any depth.
 
 Objects are keyed by serial numbers (the id -> serial map only ever holds
 objects the history keeps alive).  Wildcard-name resolution is kept out of the
-alphabet (DESIGN C10/N): only declared names and currently added instance
-traits are ever read, assigned or listened to.  See DESIGN.md section 4 / C10.
+alphabet of these histories (DESIGN C10/N): only declared names and currently
+added instance traits are ever read, assigned or listened to.  Two further
+strata run after them: `_c10_wild` (the isolation and default laws on names
+resolved through wildcard declarations; the class-level caching itself is not
+judged) and `_c10_failhook` (a hook fails while a default is being
+materialised: computed once / same object all the same).
+See DESIGN.md section 4 / C10.
 """
 import copy
 import warnings
@@ -79,7 +84,31 @@ META = {
              "argument, then an inner mutation, one evaluation per inspected sibling / fresh instance / class after "
              "every step.  distinct_nontrivial counts distinct (op, default kind of the target, value "
              "materialised before?, class of the target, static variant, recorders attached to the "
-             "target, mechanisms that fired) signatures of steps."),
+             "target, mechanisms that fired) signatures of steps.  "
+             "Stratum 'wildcard' (wild_* counters, 3200 / 48000 histories of 12-20 steps): class families built "
+             "on prefix declarations (field_=Int, items_=List, bag_=Dict, obj_=Instance(X,()), made_=Any(factory), "
+             "a subclass overriding a prefix and adding a longer one, the universal `_ = Int(7)`, no declaration at "
+             "all; with / without static _name_changed / _anytrait_changed), pool of 2-5 instances, steps {first "
+             "resolution of a brand-new name by read or assignment, use of a name a sibling resolved, in-place "
+             "mutation, register observe('*') / anytrait() / match(prefix) / '+tag' / metadata('tag') / "
+             "match(..).trait('z') / match(..).list_items() / named wildcard and declared names / legacy anytrait, "
+             "named, '+tag', 'obj_x.z'; unregister, del, add_trait under a prefix, new / drop instance, bulk "
+             "queries and copies}; after every step: recorder ownership, every sibling's stored objects / "
+             "trait_names() / trait objects it already saw and their notifier counts, a fresh instance of every "
+             "class assigning and reading the resolved names (no pool recorder may fire), notifier census of the "
+             "class-level trait of every resolved name against a control family on which nobody ever registered; "
+             "first reads of wildcard names under the default laws (declared default of the governing prefix, "
+             "silent but for trait_added, identical second read, factory once, not shared with the class-level "
+             "trait nor any other (instance, name)).  That the resolved trait is cached in the class is not judged.  "
+             "Stratum 'failhook' (failhook_* counters, ENUMERATED 306 cases, x12 with other read counts in the "
+             "thorough tier): 13 default kinds x hooks that fail while the default is materialised {nested observe "
+             "on a default lacking the next trait, items-then-trait, items observer of the wrong container kind, "
+             "the same as class-level @observe / cached Property(observe=..), legacy 'n.value' listener with "
+             "reraise on / off, post_setattr raising always / first call only, none} x period {never assigned, "
+             "assigned then del, assigned then reset_traits} x sibling with / without the hook; 2-4 reads with the "
+             "hook armed, sibling reads in between, reads after disarming: default method / factory at most once "
+             "per period, every returning read returns one object (the declared default, the one post_setattr was "
+             "given), sibling untouched."),
     "phases": [{"name": "main", "flavour": "P", "shards": 16}],
     "gates": {
         "quick": {"evaluations": 100000, "steps": 15000, "sibling_inspections": 30000,
@@ -96,7 +125,16 @@ META = {
                   "reset_ops_on_stored_value_with_notifier": 800,
                   "reset_ops_on_stored_value_without_notifier": 130, "reset_new_identity_checks": 400,
                   "inplace_sibling_ops": 1000, "inplace_sibling_ops_nested": 600,
-                  "inplace_sibling_ops_local_variable": 500, "period_checks": 300000},
+                  "inplace_sibling_ops_local_variable": 500, "period_checks": 300000,
+                  "wild_steps": 19000, "wild_sibling_inspections": 70000, "wild_fresh_instances": 30000,
+                  "wild_fresh_assignments": 100000, "wild_class_inspections": 30000,
+                  "wild_census_comparisons": 200000, "wild_first_reads": 55000,
+                  "wild_first_resolutions": 4000, "wild_first_resolutions_on_observed_instance": 2000,
+                  "wild_registrations_following_trait_added": 4000,
+                  "wild_assignments_beside_listening_sibling": 3200, "wild_handler_events_on_target": 20000,
+                  "wild_own_mutations": 2000, "wild_add_trait_ops": 800,
+                  "failhook_cases": 150, "failhook_period_checks": 300, "failhook_first_reads_raised": 35,
+                  "failhook_resets_raised": 90, "failhook_reads_returned": 1400},
         "thorough": {"evaluations": 2000000, "steps": 300000, "sibling_inspections": 600000,
                      "fresh_instances": 800000, "class_inspections": 800000, "first_reads": 16000000,
                      "pool_first_reads": 1000000, "first_reads_static": 10000000,
@@ -113,14 +151,27 @@ META = {
                      "reset_ops_on_stored_value_without_notifier": 2600,
                      "reset_new_identity_checks": 8000, "inplace_sibling_ops": 20000,
                      "inplace_sibling_ops_nested": 12000, "inplace_sibling_ops_local_variable": 10000,
-                     "period_checks": 6000000},
+                     "period_checks": 6000000,
+                     "wild_steps": 340000, "wild_sibling_inspections": 1200000, "wild_fresh_instances": 540000,
+                     "wild_fresh_assignments": 1800000, "wild_class_inspections": 540000,
+                     "wild_census_comparisons": 3600000, "wild_first_reads": 1000000,
+                     "wild_first_resolutions": 72000, "wild_first_resolutions_on_observed_instance": 36000,
+                     "wild_registrations_following_trait_added": 72000,
+                     "wild_assignments_beside_listening_sibling": 57000, "wild_handler_events_on_target": 360000,
+                     "wild_own_mutations": 36000, "wild_add_trait_ops": 14000,
+                     "failhook_cases": 1800, "failhook_period_checks": 3600, "failhook_first_reads_raised": 420,
+                     "failhook_resets_raised": 1000, "failhook_reads_returned": 17000},
     },
     "assumptions": [
         "the declared default of every trait of the harness classes is the literal written in SPEC "
         "(the most derived class-body value or _x_default method wins)",
         "a subclass overriding an Any([..])/Any({..})/factory/Instance default by a class-body value is "
         "out of scope: TraitType.clone documents that such a default becomes a shared constant",
-        "wildcard-name resolution (caches a trait in the class dictionary by design) is not exercised",
+        "wildcard-name resolution caches the resolved trait in the class dictionary by design: the main "
+        "histories keep it out of their alphabet; the stratum 'wildcard' exercises it and judges everything "
+        "but that caching (and whether trait_added fires)",
+        "whether a read raises while a failing hook is attached is not judged (stratum 'failhook'): only how "
+        "often the default is computed and which object returning reads yield",
     ],
 }
 
@@ -1911,3 +1962,9 @@ def run(ctx):
             H.prev_fresh = {}
         finally:
             ctx.end()
+    # stratum "wildcard": the same isolation laws on names resolved through wildcard declarations
+    from vf.monitors import _c10_wild
+    _c10_wild.run(ctx, lambda: HUB.excs)
+    # stratum "failhook": a hook fails while a default is being materialised, then the reads go on
+    from vf.monitors import _c10_failhook
+    _c10_failhook.run(ctx, lambda: HUB.excs)
